@@ -5,11 +5,11 @@ import AbraProofs.Lemmas.Analysis
 Model: `Abra.Analysis` (the repaired `collect_locals_*`, `collect_captures_*`,
 `calculate_args_captures_locals`, the offset table, the two loop stacks).
 
-* `C03_offsets_complete` — every key the translator looks up in a function's offset table (variable reads,
-  pattern binders, the captures loaded when a nested lambda/task is created, assigned variables) has an entry,
-  provided every variable assigned by `x = e` is one the function also owns or reads (the excluded shape is
-  D20, assignment to a captured variable, a checker matter recorded under C20).
-* `C03_offsets_assign_counterexample` — without that proviso the statement is false (D20's shape).
+* `C03_offsets_complete` (`_task`, `_own_assign`) — every key the translator looks up in a function's offset table
+  (variable reads, pattern binders, hidden temporaries, assigned variables, the captures loaded when a nested
+  lambda/task is created) has an entry, for every lambda/task the checker accepts (the checker rejects assignment
+  to a captured variable, fdfd074).
+* `C03_checker_rejects_captured_assign` — the former D20 shape is rejected by the checker model.
 * `C03_loop_ctx_agree` — a `break`/`continue` the checker's loop stack accepts finds a loop on the code
   generator's loop stack (lambda/task bodies start with an empty stack on both sides).
 
@@ -19,8 +19,8 @@ Model: `Abra.Analysis` (the repaired `collect_locals_*`, `collect_captures_*`,
 -/
 namespace Abra.Analysis
 
-/-- **Offset tables are complete.** -/
-theorem C03_offsets_complete (ps : List Nat) (body : RExpr)
+/-- lookups are covered once every assigned variable is one the function owns or reads -/
+theorem offsets_complete_of_assign (ps : List Nat) (body : RExpr)
     (hassign : ∀ x ∈ assignedE body, x ∈ ps ∨ x ∈ localsE body ∨ x ∈ usesE body) :
     ∀ k ∈ lookupsE body, k ∈ tableKeys ps body := by
   intro k hk
@@ -41,18 +41,43 @@ theorem C03_offsets_complete (ps : List Nat) (body : RExpr)
     · exact .inr h
     · exact key k h
 
-/-- the same for a whole lambda: what `translate_func_body_helper` builds for `(params) -> body` covers
-    every lookup made while translating `body`, when `body` assigns only its own variables -/
+/-- **Offset tables are complete** for every lambda `(ps) -> body` (and, with `ps = []`, `localsE body` alone, every
+    task) that the checker accepts: each key looked up while translating `body` — variable reads, pattern binders,
+    hidden temporaries, assigned variables, the captures loaded when a nested lambda/task is created — has an entry
+    in the table `translate_func_body_helper` builds.  The checker's rule (fdfd074) is what makes assigned variables
+    the function's own. -/
+theorem C03_offsets_complete (ps : List Nat) (body : RExpr)
+    (hchk : checkerAssignE none (.lam ps body) = true) :
+    ∀ k ∈ lookupsE body, k ∈ tableKeys ps body := by
+  simp only [checkerAssignE] at hchk
+  apply offsets_complete_of_assign
+  intro x hx
+  have := assignedE_own body _ hchk x hx
+  simp only [List.mem_append] at this
+  rcases this with h | h
+  · exact .inl h
+  · exact .inr (.inl h)
+
+theorem C03_offsets_complete_task (body : RExpr) (hchk : checkerAssignE none (.task body) = true) :
+    ∀ k ∈ lookupsE body, k ∈ tableKeys [] body := by
+  simp only [checkerAssignE] at hchk
+  apply offsets_complete_of_assign
+  intro x hx
+  exact .inr (.inl (assignedE_own body _ hchk x hx))
+
+/-- named functions and `<main>` (no enclosing function: every resolved local they assign is their own
+    parameter or local — a fact of name resolution, taken as hypothesis) -/
 theorem C03_offsets_complete_own_assign (ps : List Nat) (body : RExpr)
     (hassign : ∀ x ∈ assignedE body, x ∈ ps ∨ x ∈ localsE body) :
     ∀ k ∈ lookupsE body, k ∈ tableKeys ps body :=
-  C03_offsets_complete ps body (fun x hx => (hassign x hx).elim .inl (fun h => .inr (.inl h)))
+  offsets_complete_of_assign ps body (fun x hx => (hassign x hx).elim .inl (fun h => .inr (.inl h)))
 
-/-- D20's shape: `() -> { x = 3 }` with `x` (binder 7) bound outside: the assigned variable is looked up
-    but has no entry. -/
-theorem C03_offsets_assign_counterexample :
-    ∃ (ps : List Nat) (body : RExpr), ∃ k ∈ lookupsE body, k ∉ tableKeys ps body :=
-  ⟨[], .block (RStmts.ofList [.assignVar 7 .lit]), 7, by decide, by decide⟩
+/-- the former D20 shape `() -> { x = 3 }` (x bound outside) is rejected by the checker model; it is also exactly
+    the shape for which a lookup would have no entry -/
+theorem C03_checker_rejects_captured_assign :
+    checkerAssignE none (.lam [] (.block (RStmts.ofList [.assignVar 7 .lit]))) = false ∧
+    (∃ k ∈ lookupsE (.block (RStmts.ofList [.assignVar 7 .lit])), k ∉ tableKeys [] (.block (RStmts.ofList [.assignVar 7 .lit]))) :=
+  ⟨by decide, 7, by decide, by decide⟩
 
 /-- **The loop contexts agree**: whatever the checker's loop stack lets through (starting outside any loop,
     as at the top of a function body) does not make the code generator unwrap an empty loop stack. -/
@@ -75,7 +100,7 @@ def demoBody : RExpr :=
       .assignPlace [30, 31] (.op (RExprs.ofList [.var 5, .block (RStmts.ofList [.let_ [12] (.var 11), .expr (.var 12)])])) (.var 10)]),
     .expr (.lam [20] (.op (RExprs.ofList [.var 20, .var 10, .var 2])))])
 
-example : (∀ x ∈ assignedE demoBody, x ∈ [1] ∨ x ∈ localsE demoBody ∨ x ∈ usesE demoBody)
+example : checkerAssignE none (.lam [1] demoBody) = true
     ∧ lookupsE demoBody ≠ [] ∧ checkerLoopsE false demoBody = true := by decide
 
 example : capturesOf [1] demoBody = [2, 3, 4, 5, 2] ∧ localsE demoBody = [10, 11, 30, 31, 12] := by decide
